@@ -26,8 +26,9 @@ MANDATORY = ["herald_with_photon", "herald_in_ne_out", "post_selection_rejects",
              "lossy", "predicate_post_selection", "rule_post_selection", "error_rate_checked", "rule_added_in_place"]
 DECIDING = ["rel_analyzer_vs_sampler", "rel_quick_vs_sampler", "rel_simulator_vs_sampler", "rel_performance"]
 BUDGET = {"quick": 30, "thorough": 480}
-ASSUMPTIONS = ["relations are checked between the objects' own results (tolerance 1e-7, which covers the documented "
-               "1e-9 per-state truncation for the sizes generated)",
+ASSUMPTIONS = ["relations are checked between the objects' own results: absolute tolerance 1e-7 plus the documented 1e-9 "
+               "per-state truncation of the sampler times the number of loss-mode patterns; for ratios (error rate, "
+               "renormalised quick-sampler distribution) that allowance is divided by the accepted total",
                "quick sampler with vacuum input and threshold detectors is a degenerate case and is not judged"]
 
 TOL = 1e-7
@@ -182,6 +183,10 @@ def run(ctx):
         # --- relation checker
         herald_out = h["output"]
         hmodes = sorted(herald_out)
+        # the sampler drops full output states (incl. loss-mode patterns) below 1e-9: each visible pattern can be
+        # under-reported by 1e-9 x (number of loss-mode patterns); ratios amplify that by 1/total
+        trunc = 1e-9 * boson.n_fock(n_loss + 1, nph + hph)
+        tol_abs = TOL + trunc
 
         def visible(full):
             return [x for m, x in enumerate(full) if m not in herald_out]
@@ -210,11 +215,11 @@ def run(ctx):
                 bad = None
                 for i, a in enumerate(acc):
                     for j, o in enumerate(outs):
-                        if abs(arr[i, j] - a.get(o, 0.0)) > TOL:
+                        if abs(arr[i, j] - a.get(o, 0.0)) > tol_abs:
                             bad = (f"analyzer p({inputs[i].s}->{list(o)}) = {arr[i, j]:.9f}, sampler gives "
                                    f"{a.get(o, 0.0):.9f} for the corresponding heralded output")
                             break
-                    missing = [v for v, p in a.items() if p > TOL and v not in outs]
+                    missing = [v for v, p in a.items() if p > tol_abs and v not in outs]
                     if not bad and missing:
                         bad = f"analyzer outputs miss accepted pattern {list(missing[0])} (p={a[missing[0]]:.6f})"
                     if bad:
@@ -223,7 +228,7 @@ def run(ctx):
                     ctx.violation(bad, case=case, mechanism="analyzer_vs_sampler", monitor="relation checker")
                 ctx.count("rel_performance")
                 perf = float(np.mean([sum(a.values()) for a in acc]))
-                if abs(an_res.performance - perf) > TOL:
+                if abs(an_res.performance - perf) > tol_abs * max(1, len(acc[0]) if acc else 1):
                     ctx.violation(f"analyzer performance {an_res.performance:.9f}, mean accepted total {perf:.9f}",
                                   case=case, mechanism="analyzer_performance", monitor="relation checker")
                 if hasattr(an_res, "error_rate"):
@@ -251,7 +256,8 @@ def run(ctx):
                     tot = sum(acc[i].values())
                     errs.append(1 - sum(acc[i].get(tuple(o.s), 0.0) for o in e) / tot)
                 er = float(np.mean(errs))
-                if abs(getattr(an_res2, "error_rate", np.nan) - er) > 1e-6:
+                min_tot = min(sum(a.values()) for a in acc)
+                if not abs(getattr(an_res2, "error_rate", np.nan) - er) <= 1e-6 + 4 * trunc * max(len(a) for a in acc) / min_tot:
                     ctx.violation(f"analyzer error_rate {getattr(an_res2, 'error_rate', None)}, "
                                   f"1 - accepted-and-expected fraction = {er:.9f}", case=case,
                                   mechanism="analyzer_error_rate", monitor="relation checker")
@@ -265,7 +271,7 @@ def run(ctx):
                 if tot > 1e-6:
                     keys = set(a0) | set(qs_dist)
                     worst = max(abs(a0.get(q, 0.0) / tot - qs_dist.get(q, 0.0)) for q in keys)
-                    if worst > 1e-6:
+                    if worst > 1e-6 + 4 * trunc * max(1, len(keys)) / tot:
                         q = max(keys, key=lambda q: abs(a0.get(q, 0.0) / tot - qs_dist.get(q, 0.0)))
                         ctx.violation(f"quick sampler p({list(q)}) = {qs_dist.get(q, 0.0):.9f}, conditioned and "
                                       f"renormalised sampler distribution gives {a0.get(q, 0.0) / tot:.9f}",
@@ -287,7 +293,7 @@ def run(ctx):
                             v = tuple(visible(full))
                             a_all[v] = a_all.get(v, 0.0) + p
                     worst = max(abs(abs(sim_res.array[i, j]) ** 2 - a_all.get(o, 0.0)) for j, o in enumerate(outs))
-                    if worst > TOL:
+                    if worst > tol_abs:
                         ctx.violation(f"|simulator amplitude|^2 differs from sampler probability by {worst:.3g} "
                                       f"for input {inputs[i].s}", case=case, mechanism="simulator_vs_sampler",
                                       monitor="relation checker")
@@ -318,7 +324,7 @@ def run(ctx):
                     if q2 is not None and tot2 > 1e-6:
                         keys = set(a2) | set(q2)
                         worst = max(abs(a2.get(q, 0.0) / tot2 - q2.get(q, 0.0)) for q in keys)
-                        if worst > 1e-6:
+                        if worst > 1e-6 + 4 * trunc * max(1, len(keys)) / tot2:
                             ctx.violation(f"after adding rule ({m_add}, {nums}) to its PostSelection in place the quick "
                                           f"sampler differs from the conditioned sampler distribution by {worst:.3g}",
                                           case=case, mechanism="quick_vs_sampler_after_in_place_rule",
